@@ -13,11 +13,12 @@ TECHNIQUE = "reference-model monitor: brute-force CFG membership / parse-tree or
 FLAVOURS = [("asan", "generated")]
 RULE = ("random context-free grammars (<= 3 non-terminals, <= 3 terminals, <= 9 rules; plus larger ones with 4-6 non-terminals rich in unit and epsilon rules, short inputs; right-hand sides <= 5 symbols, with epsilon rules, left/right "
         "recursion, useless and rule-less symbols), each in full or prefix mode, with ALL end-marked inputs up to length L (quick 5, thorough 7) over "
-        "the terminals up to the largest index used; conflict-free grammar: accept iff the input (prefix mode: some prefix) is in the language and "
+        "the terminals up to the largest index used, and for 70% of the grammars (and ten textbook recursive grammars, nesting up to 1200) whose reference canonical LR(1) table is conflict-free also words from random derivations nested "
+        "20-400 levels deep (up to ~600 tokens) with damaged copies, judged by the reference LR run cross-checked against the generating derivation; conflict-free grammar: accept iff the input (prefix mode: some prefix) is in the language and "
         "the returned value is the fold of the unique tree (children last-first); ambiguous grammar (>= 2 trees for some input or a derivation "
         "cycle): at least one conflict must be reported; FIRST sets = textbook fixpoint; "
         "non-trivial = grammar with >= 1 accepted input or >= 1 conflict; distinct by SHA-1 of (rules, mode)")
-ASSUMPTIONS = ["R6 (vlib/ref/lr.py, cfg.py): membership and trees by exhaustive derivation - no LR machinery on the oracle side",
+ASSUMPTIONS = ["R6 (vlib/ref/lr.py, cfg.py): membership and trees of the short inputs by exhaustive derivation - no LR machinery on the oracle side; long inputs by the reference's own textbook canonical LR(1) run, only for grammars where that table is conflict-free",
                "not judged: grammars that are unambiguous but not LR(1); conflicts reported for useless grammars where the same reduction is entered twice"]
 
 
@@ -36,7 +37,25 @@ def plan(tier, seed):
     # items that wait for the same non-terminal with different, overlapping lookahead sets
     q = 3000 if tier == "quick" else 30000
     specs += [{"seed": seed, "chunk": 300000 + i, "n": 150, "L": 4 if tier == "quick" else 5, "big": "prefix"} for i in range(q // 150)]
+    # textbook recursive grammars with long, deeply nested inputs (up to ~1200 levels)
+    specs += [{"seed": seed, "chunk": 400000 + i, "n": len(CLASSIC), "L": 3, "big": "classic"} for i in range(4 if tier == "quick" else 40)]
     return specs
+
+
+T1, T2, T3, T4, T5 = (("t", i) for i in range(1, 6))
+N0, N1, N2 = (("n", i) for i in range(3))
+CLASSIC = [
+    (1, 2, [(0, (T1, N0)), (0, (T2,))]),                                   # right recursion  a^n b
+    (1, 1, [(0, (T1, N0)), (0, ())]),                                      # a^n through an epsilon rule
+    (1, 2, [(0, (N0, T1)), (0, (T2,))]),                                   # left recursion   b a^n
+    (1, 2, [(0, (T1, N0, T2)), (0, ())]),                                  # a^n b^n
+    (1, 3, [(0, (T1, N0, T2)), (0, (T3,))]),                               # a^n c b^n
+    (1, 2, [(0, (T1, N0, T2, N0)), (0, ())]),                              # balanced brackets
+    (3, 5, [(0, (N0, T1, N1)), (0, (N1,)), (1, (N1, T2, N2)), (1, (N2,)), (2, (T3, N0, T4)), (2, (T5,))]),   # E -> E+T | T ...
+    (2, 3, [(0, (N1, T1, N0)), (0, (N1,)), (1, (T2,)), (1, (T3, N0, T3))]),  # right-nested lists
+    (2, 2, [(0, (T1, N1)), (1, (T2, N0)), (1, ())]),                        # mutual recursion
+    (3, 3, [(0, (N1,)), (1, (N2,)), (2, (T1, N0)), (2, (T2,)), (2, (T3, N2))]),   # unit-rule chains around the recursion
+]
 
 
 def gen(rnd, big=False):
@@ -100,6 +119,65 @@ def gen(rnd, big=False):
     return nnt, nt, rules
 
 
+def long_inputs(rnd, rules, nnt, maxt, k=2, depths=(20, 60, 150, 400)):
+    """long words obtained from deep random derivations (nesting 20..400 levels, up to ~600 tokens) plus damaged copies of
+    them, for grammars whose reference canonical LR(1) table (full mode) is conflict-free - the grammar is then unambiguous
+    and the reference LR run decides membership and yields the unique tree; -> [(word, reference table)]"""
+    terms = [("t", i) for i in range(1, maxt + 1)]
+    tab = lr.build(rules, nnt, 0, False, terms)
+    if tab["conflicts"]:
+        return []
+    out = []
+    for _ in range(k):
+        sw = lr.sample_word(rnd, rules, nnt, 0, rnd.choice(depths), 600)
+        if sw is None:
+            return []
+        w, tree = sw
+        if len(w) < 8:
+            continue
+        if lr.parse(tab, w) != tree:
+            raise AssertionError("reference LR run disagrees with the generating derivation")
+        out.append((w, tab))
+        d = list(w)
+        q = rnd.random()
+        pos = rnd.randrange(len(d))
+        if q < 0.35:
+            del d[pos]
+        elif q < 0.7:
+            d[pos] = rnd.randint(1, maxt)
+        elif q < 0.85:
+            d = d[:pos]
+        else:
+            d.insert(pos, rnd.randint(1, maxt))
+        out.append((d, tab))
+    return out
+
+
+def judge_long(rules, prefix, longs, results, bad, part):
+    for (w, tab), r in zip(longs, results):
+        if prefix:
+            mem = lr.prefix_members(tab, w)
+        else:
+            t = lr.parse(tab, w)
+            mem = [(len(w), t)] if t is not None else []
+        part["stats"]["long-parses-checked"] += 1
+        part["stats"]["max-long-input"] = max(part["stats"]["max-long-input"], len(w))
+        short = "%s... (%d tokens)" % (w[:12], len(w))
+        if r is None:
+            if mem:
+                bad.append(("rejects-member", "input %s rejected although its prefix of length %d is in the language" % (short, mem[0][0])))
+        else:
+            part["stats"]["long-accepts"] += 1
+            if not mem:
+                bad.append(("accepts-nonmember", "input %s accepted but no %s is in the language" % (short, "prefix" if prefix else "such word")))
+            elif len(mem) > 1:
+                bad.append(("no-conflict-for-prefix-ambiguity", "two prefixes of %s are words, yet no conflict was reported" % short))
+            elif cfg.fold(mem[0][1]) != r:
+                bad.append(("wrong-value", "input %s: value differs from the fold of the unique tree" % short))
+        if bad:
+            return
+
+
 def cyclic(rules, nnt):
     first, nullable = lr.first_sets(rules, nnt)
     edges = {i: set() for i in range(nnt)}
@@ -128,7 +206,8 @@ def _work(spec):
     cases = []
     L_ = spec["L"]
     for g in range(spec["n"]):
-        nnt, nt, rules = gen(rnd, spec.get("big", False))
+        classic = spec.get("big") == "classic"
+        nnt, nt, rules = CLASSIC[g % len(CLASSIC)] if classic else gen(rnd, spec.get("big", False))
         prefix = rnd.randint(0, 1)
         maxt = max([s[1] for l, r in rules for s in r if s[0] == "t"] + [0])
         lim = L_ if maxt <= 2 else min(L_, 5 if L_ <= 5 else 6)
@@ -138,12 +217,16 @@ def _work(spec):
         opts = [("g", "%d %d %d" % (nnt, prefix, 0))]
         for l, r in rules:
             opts.append(("r", "%d %d %s" % (l, len(r), " ".join(x[0] + str(x[1]) for x in r))))
+        longs = long_inputs(rnd, rules, nnt, maxt, 6 if classic else 2, [20, 60, 150, 400, 1200] if classic else [20, 60, 150, 400]) \
+            if maxt and (classic or rnd.random() < 0.7) else []
         for w in inputs:
             opts.append(("i", "%d %s" % (len(w), " ".join(map(str, w)))))
+        for w, _t in longs:
+            opts.append(("i", "%d %s" % (len(w), " ".join(map(str, w)))))
         cases.append({"mode": "lr", "opts": opts})
-        metas.append((nnt, nt, rules, prefix, inputs, maxt))
+        metas.append((nnt, nt, rules, prefix, inputs, maxt, longs))
     outs, _ = common.run_batch(cases)
-    for (nnt, nt, rules, prefix, inputs, maxt), case, o in zip(metas, cases, outs):
+    for (nnt, nt, rules, prefix, inputs, maxt, longs), case, o in zip(metas, cases, outs):
         part["evals"] += 1
         slim = {"mode": "lr", "opts": [list(x) for x in case["opts"] if x[0] != "i"], "rules": rules, "prefix": prefix}
         if common.abnormal(ID, {"mode": "lr", "opts": case["opts"][:12]}, o, part, "in the LR generator / parser"):
@@ -182,6 +265,8 @@ def _work(spec):
                         bad.append(("wrong-value", "input %s: value %s, fold of the unique tree %s" % (w, r, cfg.fold(inl[0][1][0]))))
             if len(bad) > 3:
                 break
+        if conf == 0 and longs and not bad:
+            judge_long(rules, prefix, longs, res[len(inputs):], bad, part)
         if ambiguous and conf == 0:
             bad.append(("ambiguous-without-conflict", "some input has two derivation trees but table generation reported no conflict"))
         if bad:
